@@ -69,7 +69,7 @@ CLAIMS = {
         "record, every applicable single violation with position, pairs, 36 metadata-padding forms, document/level contexts). Each case is concretised "
         "constructively on top of the independent reference aggregator (downstream values recomputed so no other condition breaks) several times with random "
         "link mixes and verified by libksi; the real verdict must lie in the spec's Allowed set.",
-   note="Also the shape of no leaf (calShapeNone: surplus links at either end of the calendar chain). Not generated: RFC3161 records (INT-14, INT-17, legacy INT-01) and INT-16 (no supported algorithm is obsolete); byte-level mutations are C09/C10/C12's. Non-shortest TLV forms inside hashed metadata are outside the compared domain (only 'never OK' is demanded). Trusted: TLC, hashlib, tools/ksi.py, tools/sigcase.py.",
+   note="Legacy signatures (RFC 3161 record) with the violations rfcOutput / rfcTime / rfcIndex (changed, surplus, missing element) / rfcAlg / rfcOutAlg, alone and combined, under every document / level context. Also the shape of no leaf (calShapeNone: surplus links at either end of the calendar chain). Not generated: RFC3161 records (INT-14, INT-17, legacy INT-01) and INT-16 (no supported algorithm is obsolete); byte-level mutations are C09/C10/C12's. Non-shortest TLV forms inside hashed metadata are outside the compared domain (only 'never OK' is demanded). Trusted: TLC, hashlib, tools/ksi.py, tools/sigcase.py.",
    technique="TLC-checked equivalence of declarative conditions and the rule tree + replay of all TLC cases (constructively concretised) into libksi"),
  "C02": dict(level="model_checking", design_ref="DESIGN.md 4/C02",
    text="The document conditions of Signature.tla (GEN-01 other digest, GEN-04 other algorithm, GEN-03 level above the first correction, level > 255 refused) are "
@@ -78,7 +78,7 @@ CLAIMS = {
         "replayed under the key-based, calendar-based, publications-file, user-publication and general policies on signatures whose trust anchor matches (C04's "
         "environment: real PKI, publications file, scripted extender), where the only admissible outcomes are OK for the right hash and level, GEN-01 / GEN-04 / "
         "GEN-03, or a refusal for levels above 255.",
-   note="Every context is replayed through four entry points (KSI_SignatureVerifier_verify, KSI_Signature_verifyWithPolicy with arguments / with a caller's context, KSI_Signature_parseWithPolicy). AnchorPolicy.tla shows the internal rules dominate every path to OK of the five anchor policies (BrokenNeverOk). RFC3161 (legacy) signatures are not generated.",
+   note="Legacy signatures: the document is compared with the RFC 3161 record's input hash and any level above 0 is too large. Every context is replayed through four entry points (KSI_SignatureVerifier_verify, KSI_Signature_verifyWithPolicy with arguments / with a caller's context, KSI_Signature_parseWithPolicy). AnchorPolicy.tla shows the internal rules dominate every path to OK of the five anchor policies (BrokenNeverOk). RFC3161 (legacy) signatures are not generated.",
    technique="TLC-checked rule-tree model + exhaustive context table and bit-flip enumeration replayed into libksi"),
  "C10": dict(level="model_checking", design_ref="DESIGN.md 4/C10",
    text="Schema.tla restates the KSI schema of signatures and aggregation / extension response PDUs (v2) as data with a declarative Accept (mandatory, "
